@@ -367,6 +367,115 @@ def r7c(fb, rep):
     rep.floor(R, "pointer-to-integer casts / {:p} sites examined", n, 3)
 
 
+UNORDERED_STREAMS = ("futures_util::stream::futures_unordered::FuturesUnordered", "futures_util::stream::select_all::SelectAll",
+                     "futures_util::stream::stream::buffer_unordered::BufferUnordered", "futures_util::stream::try_stream::try_buffer_unordered::TryBufferUnordered",
+                     "tokio::task::join_set::JoinSet")
+
+
+def r7d(fb, rep):
+    """completion order is scheduling order: what comes out of a completion-ordered stream must not decide output order"""
+    R = "R7d"
+    rep.rule(R, "results taken from a completion-ordered stream are re-ordered by an index attached before the futures were put in")
+    pool = [b for b in fb.bodies.values() if b.kind != "coroutine_post"] + list(fb.pre.values())
+    n = 0
+    for b in pool:
+        if b.crate.name not in CRATES:
+            continue
+        makers = []
+        for c in b.calls():
+            if c.dest is None:
+                continue
+            row = b.local_ty(c.dest[0]) if not c.dest[1] else None
+            if row is not None and row.get("k") == "adt" and row["adt"] in UNORDERED_STREAMS:
+                makers.append(c)
+        if not makers:
+            continue
+        root = b.get("root") or b.id
+        for mk in makers:
+            n += 1
+            st_locals = flow.derived_locals(b, mk.dest[0])
+            # (1) nothing numbers / pairs / collects the stream in arrival order
+            for c in b.calls():
+                if not c.args:
+                    continue
+                p = op_place(c.args[0])
+                if p is None or p[0] not in st_locals:
+                    continue
+                nm = (c.fn or c.res)
+                short = nm.rsplit("::", 1)[1]
+                if "StreamExt::" in nm and short in ("enumerate", "zip", "collect", "concat", "fold", "for_each", "chunks", "ready_chunks", "peekable", "scan"):
+                    rep.violation(R, "arrival-order-adaptor|%s|%s" % (root, short), "%s applies StreamExt::%s to a completion-ordered stream: indices / positions "
+                                  "then reflect scheduling, not source order" % (root, short), c.where())
+            # (2) the futures were indexed before they went in: the collect/push that fills the set is fed by Iterator::enumerate
+            if mk.res.endswith("Iterator::collect") or mk.res.endswith("FromIterator>::from_iter"):
+                srcs = flow.sources(b, mk.args[0], depth=14) if mk.args else set()
+                indexed = flow.has_call(srcs, lambda x: x.endswith("iterator::Iterator::enumerate"))
+            else:
+                indexed = False
+            # (3) whatever the arrival loop accumulates in a Vec is sorted before it flows on
+            nexts = [c for c in b.calls() if (c.fn or "").endswith("StreamExt::next") and c.args and op_place(c.args[0]) is not None
+                     and op_place(c.args[0])[0] in st_locals]
+            loop_blocks = set()
+            for comp in b.sccs():
+                if any(c.bb in comp for c in nexts):
+                    loop_blocks |= comp
+            pushes = [c for c in b.calls() if c.bb in loop_blocks and c.res.endswith("Vec::<T, A>::push")]
+            unsorted = []
+            for pc in pushes:
+                base = op_place(pc.args[0])
+                if base is None:
+                    continue
+                # the vector local behind the &mut
+                vec_locals = {s_ for s_ in _ref_bases(b, base[0])}
+                sorts = [c for c in b.calls() if c.bb not in loop_blocks and ("::sort" in c.res) and c.args and _ref_bases(b, op_place(c.args[0])[0] if op_place(c.args[0]) else -1) & vec_locals]
+                consumers = [c for c in b.calls() if c.bb not in loop_blocks and c is not pc and "::sort" not in c.res and c.args and
+                             any(op_place(a) is not None and (_ref_bases(b, op_place(a)[0]) & vec_locals) for a in c.args) and not c.res.endswith("Vec::<T>::new")
+                             and not c.res.endswith("::with_capacity") and c.res.rsplit("::", 1)[1] not in ("deref", "deref_mut", "as_mut_slice", "as_slice", "len", "is_empty")]
+                if not sorts or not all(any(b.dominates(s_.bb, c.bb) for s_ in sorts) for c in consumers):
+                    unsorted.append(pc)
+            if not nexts:
+                rep.ok(R, "%s: completion-ordered stream built, not drained here" % root)
+            elif pushes and indexed and not unsorted:
+                rep.ok(R, "%s: futures indexed by Iterator::enumerate before entering the unordered set; arrivals sorted by that index before use" % root)
+            elif not pushes:
+                rep.ok(R, "%s: arrivals are not accumulated in order" % root)
+            else:
+                rep.violation(R, "arrival-order-kept|%s" % root, "%s accumulates the results of a completion-ordered stream in arrival order (%s): the order of "
+                              "reported errors depends on scheduling" % (root, "futures not indexed before insertion" if not indexed else "accumulator not sorted before use"),
+                              (unsorted[0] if unsorted else pushes[0]).where())
+    rep.floor(R, "completion-ordered streams in the pipeline", n, 1)
+
+
+def _ref_bases(b, local, depth=6):
+    """locals a reference local may point to (through reborrows), including itself"""
+    out = {local}
+    work = [local]
+    while work and depth > 0:
+        depth -= 1
+        nxt = []
+        for l in work:
+            if l < 0:
+                continue
+            for d in b.defs_of(l):
+                if d[0] == "assign" and d[3][0] == "ref":
+                    x = d[3][2][0]
+                    if x not in out:
+                        out.add(x)
+                        nxt.append(x)
+                elif d[0] == "assign" and d[3][0] == "use" and op_place(d[3][1]) is not None:
+                    x = op_place(d[3][1])[0]
+                    if x not in out:
+                        out.add(x)
+                        nxt.append(x)
+                elif d[0] == "call" and d[2].args and d[2].res.rsplit("::", 1)[1] in ("deref", "deref_mut", "as_mut_slice", "as_slice", "as_mut", "borrow_mut"):
+                    p = op_place(d[2].args[0])
+                    if p is not None and p[0] not in out:
+                        out.add(p[0])
+                        nxt.append(p[0])
+        work = nxt
+    return out
+
+
 def run(fb, rep, tier, cfg):
     rep.explanation = (
         "Static analysis of the compile+eval crates' MIR. R7a decides on the resolved generic arguments of every iterating "
@@ -374,9 +483,12 @@ def run(fb, rep, tier, cfg):
         "contents (no RandomState hasher, no pointer / PtrEq keys); R7b: a may-reach call-graph check that no clock / randomness / "
         "environment / thread-identity source is reachable from the pipeline functions (resolved calls only); R7c: pointer-to-"
         "integer casts and {:p} are used for identity only (no ordering, hashing-for-iteration or printing). Order dependence on "
-        "the history of process-lifetime Fnv maps and interning order is listed, not decided.")
+        "the history of process-lifetime Fnv maps and interning order is listed, not decided. R7d: wherever a completion-ordered stream "
+        "(FuturesUnordered, SelectAll, BufferUnordered, JoinSet) is drained, the futures were numbered by Iterator::enumerate before they "
+        "entered it, nothing numbers/zips/collects the stream itself, and what the arrival loop accumulates is sorted before it flows on.")
     rep.assumptions += ["unresolved virtual / fn-pointer calls are not followed by R7b", "FnvHasher and BTree orders are functions of the contents",
                         "the effect primitives (random, io, env, process, time) are outside the property"]
     r7a(fb, rep)
     r7b(fb, rep)
     r7c(fb, rep)
+    r7d(fb, rep)
